@@ -23,3 +23,13 @@ import pygal_callback  # noqa: E402
 
 # taskiq/receiver/receiver.py: the per-message pipeline Receiver.callback (C02, C07, C10), monadic backend (pygal_m.py)
 SPECS["callback"] = pygal_callback.SPEC
+
+import pygal_kiq  # noqa: E402
+
+# taskiq/kicker.py: the send side AsyncKicker.kiq (C10), monadic backend, a function with a result
+SPECS["kiq"] = pygal_kiq.SPEC
+
+import pygal_on_ready  # noqa: E402
+
+# taskiq/scheduler/scheduler.py: TaskiqScheduler.on_ready (C16), monadic backend over PyStm.v / PyPreludeSched.v
+SPECS["on_ready"] = pygal_on_ready.SPEC
